@@ -1,5 +1,6 @@
 ---------------------------- MODULE CommitLiveMC ----------------------------
 (* Liveness instance: every commit call returns under weak fairness of every thread. *)
 EXTENDS Commit
+MCDup == [t \in Txns |-> IF t = "t2" THEN 1 ELSE 0]
 MCWr == [t \in Txns |-> CASE t = "t1" -> {"k1"} [] t = "t2" -> {"k1", "k2"} [] t = "t3" -> {"k1"} [] OTHER -> {"k2"}]
 =============================================================================
